@@ -250,6 +250,23 @@ func init() {
 					panic(engineError{"imprecise: ParseFloat of a float rendered with fixed precision"})
 				}
 				fr.w.stub("ParseFloat(FormatFloat(f)) == f (trusted round trip)")
+				if bs, _ := a[1].(int64); bs == 32 {
+					// bitSize 32: the value is rounded to float32 (range errors are not modelled: imprecise beyond float32's range)
+					switch fv := s.tag.fpOf.(type) {
+					case float64:
+						if math.IsInf(float64(float32(fv)), 0) && !math.IsInf(fv, 0) {
+							panic(engineError{"imprecise: ParseFloat(.., 32) outside float32's range"})
+						}
+						return Tuple{float64(float32(fv)), Iface{}}, true
+					case *Term:
+						rm := &Term{op: "const", sort: SFP, raw: "RNE", size: 1}
+						fin := tFP("fp.leq", SBool, tFP("fp.abs", SFP, fv), fpConstLit(3.4e38))
+						if !fr.w.path.Branch(tOr(fin, tNot(tFP("fp.leq", SBool, tFP("fp.abs", SFP, fv), fpConstLit(math.MaxFloat64))))) {
+							panic(engineError{"imprecise: ParseFloat(.., 32) outside float32's range"})
+						}
+						return Tuple{tFP("(_ to_fp 11 53)", SFP, rm, tFP("(_ to_fp 8 24)", SFP, rm, fv)), Iface{}}, true
+					}
+				}
 				return Tuple{s.tag.fpOf, Iface{}}, true
 			}
 			t := s.tag.intOf
